@@ -6,6 +6,7 @@ import (
 	"os"
 	"os/exec"
 	"path/filepath"
+	"regexp"
 	"sort"
 	"strings"
 	"sync"
@@ -33,6 +34,11 @@ var solvers = []solverSpec{
 	{"z3", func(f string, t int) []string { return []string{"z3", fmt.Sprintf("-T:%d", t), f} }, ""},
 	{"cvc5", func(f string, t int) []string {
 		return []string{"cvc5", "--produce-models", fmt.Sprintf("--tlimit=%d", t*1000), f}
+	}, ""},
+	// same solver, Groebner-basis step of the nonlinear arithmetic core switched off (decides several of the
+	// fixed-point VCs instantly where the default configuration diverges)
+	{"z3-new/nogrobner", func(f string, t int) []string {
+		return []string{"z3-new", "smt.arith.nl.grobner=false", fmt.Sprintf("-T:%d", t), f}
 	}, ""},
 }
 
@@ -83,6 +89,9 @@ func (x *Exec) buildQueryExtra(o *Oblig, wantModel bool, extra string) string {
 	lv := x.unfoldLevels
 	if lv == 0 {
 		lv = 2
+	}
+	if !x.exactDec {
+		pre = abstractDec(pre)
 	}
 	pre, unf := unfoldRecs(pre, b, lv)
 	sb.WriteString(pre)
@@ -198,4 +207,19 @@ func solveAll(x *Exec, obligs []*Oblig, workDir string, timeoutS, par int) []ins
 	}
 	wg.Wait()
 	return res
+}
+
+var decDefRe = regexp.MustCompile(`(?m)^\(define-fun (dec\.[a-z]+) \(((?:\([a-z]+ Int\) ?)+)\) Int .*$`)
+
+// abstractDec replaces the exact definitions of the fixed-point operations by uninterpreted functions:
+// proofs use only the bound lemmas asserted at each use (nonlinear div/mod definitions make the solvers diverge).
+func abstractDec(pre string) string {
+	return decDefRe.ReplaceAllStringFunc(pre, func(l string) string {
+		m := decDefRe.FindStringSubmatch(l)
+		n := strings.Count(m[2], "(")
+		if m[1] == "dec.roundpos" || m[1] == "dec.round" {
+			return l
+		}
+		return fmt.Sprintf("(declare-fun %s (%s) Int)", m[1], strings.TrimSpace(strings.Repeat("Int ", n)))
+	})
 }
